@@ -146,6 +146,14 @@ impl Tracked for ZTr {
         ZTr::new()
     }
 }
+/// a FAT tracked item (328 bytes): `[FatTr; 3]` is below 1 KiB, `[FatTr; 4]` above — array code that treats large arrays
+/// differently (heap scratch space, chunked initialisation) is exercised on both sides of such a threshold
+pub struct FatTr(pub Tracker, pub [u64; 40]);
+impl Tracked for FatTr {
+    fn make() -> Self {
+        FatTr(Tracker::new(), [0x5a5a_5a5a_5a5a_5a5a; 40])
+    }
+}
 
 impl Default for Val {
     fn default() -> Self {
